@@ -162,4 +162,8 @@ def run(run, model):
     run.try_rule(r17_2, model)
     run.try_rule(r17_3, model)
     run.try_rule(r17_4, model)
+    from rules import c09
+    run.rule("R17.5", "the call forms are emitted alike in effect position: static calls (ECall) and dyn calls (EDynCall) both become a Go "
+                      "statement when their value is unused (shared with C09 R09.6)")
+    run.try_rule(c09.r09_6, model)
     run.assume("ty_compact renders distinct monomorphic types differently (pretty printer; not decided)")
